@@ -255,6 +255,13 @@ func (x *Exec) registerFacts(st *State, t *Term, guard *Term, depth int) {
 		x.ctx.facts = append(x.ctx.facts, Implies(t, inst))
 		x.linkAtTerms(inst)
 		// the witness is relevant to the arrays the existential talks about
+		if x.witnessArrs == nil {
+			x.witnessArrs = map[int]map[int]bool{}
+		}
+		x.witnessArrs[k.id] = map[int]bool{}
+		for _, rd := range factReads(t.args[1], t.args[0]) {
+			x.witnessArrs[k.id][rd.arrID] = true
+		}
 		for _, s := range sortedBoolKeys(indexSorts(t.args[1], t.args[0])) {
 			if !strings.HasPrefix(s, "sort:") && os.Getenv("GOVC_NOWITNESS") == "" {
 				x.addInterest(st, k, s)
@@ -319,6 +326,19 @@ func (x *Exec) instantiateF(st *State, f *qfact, e *Term, depth int, force bool)
 			fmt.Fprintf(os.Stderr, "DEBUG skip fact#%d at %s: ninst=%d f.n=%d\n", f.body.id, e.StringN(40), x.ninst, f.n)
 		}
 		return
+	}
+	// a witness of an existential hypothesis is only used with facts that read the very array (same object, same heap
+	// version) the existential reads, or an array of the same object that the fact relates to it (frame-like facts)
+	if wa, isW := x.witnessArrs[e.id]; isW && len(wa) > 0 && os.Getenv("GOVC_WLOOSE") == "" {
+		hit := false
+		for _, rd := range f.reads {
+			if wa[rd.arrID] {
+				hit = true
+			}
+		}
+		if !hit {
+			return
+		}
 	}
 	// relevance: the term must have been used as an index into an array of a sort the fact talks about
 	if !f.sorts["*"] && !force {
